@@ -147,6 +147,8 @@ impl ProgressStyle {
             "at least 2 progress chars required"
         );
         self.char_width = width(&self.progress_chars);
+        // Format bar divides by the width of a progress char
+        assert!(self.char_width > 0, "progress chars must not be zero-width");
         self
     }
 
